@@ -47,4 +47,22 @@ def cmdTcp (args : List String) : String :=
     s!"{" ".intercalate r.1} | {e}"
   | none => "bad-op"
 
+/-- `ws client|server <msg> ...` with `<msg>` = `b<hex>` (binary; `b-` empty), `t` (any other kind of message), `x` (the iteration
+fails) → `<items dispatched> | open / failed` (message pump + receiver loop of a websocket transport, stub decoder) -/
+def parseWs (t : String) : Option Transport.WsMsg :=
+  if t == "t" then some .other
+  else if t == "x" then some .fail
+  else if t.startsWith "b" then (ofHex (t.drop 1).toString).map .binary
+  else none
+
+def cmdWs (args : List String) : String :=
+  match args with
+  | side :: rest =>
+    match rest.mapM parseWs with
+    | some msgs =>
+      let r := Transport.msgQueueLoop (Transport.pump (side == "client") stubParse msgs)
+      s!"{" ".intercalate r.1} | {if r.2 then "failed" else "open"}"
+    | none => "bad-op"
+  | _ => "bad-op"
+
 end Driver
